@@ -88,20 +88,21 @@ def getValues (c : Ctx) (s : State) (ks : List Bytes) : State × List Val :=
 def dedupLast (es : List (Bytes × Val)) : List (Bytes × Val) :=
   es.foldl (fun acc (k, v) => KMap.put acc k v) []
 
-/-- setValues :200. `false` = "max memory reached, key value not set". The old deadline is kept. -/
+/-- body of the `for key, value := range entries` loop of setValues: the old deadline is kept,
+    the accounted size of the new entry is *added* (the old one is never subtracted) -/
+def setOne (db : Nat) (s : State) (kv : Bytes × Val) : State :=
+  let d := s.db db
+  let exp := match d.store.get kv.1 with
+    | some e => e.exp
+    | none => none
+  let e : Entry := ⟨kv.2, exp⟩
+  { dbs := s.dbs.put db ⟨d.store.put kv.1 e, d.vol⟩,
+    mem := s.mem + e.getMem + keyMem kv.1 }
+
+/-- setValues :200. `false` = "max memory reached, key value not set". -/
 def setValues (c : Ctx) (s : State) (es : List (Bytes × Val)) : State × Bool :=
   if isMaxMemoryExceeded s.mem c.cfg.maxMemory && c.cfg.policy == .noeviction then (s, false)
-  else
-    let s := s.createDb c.db
-    let s := (dedupLast es).foldl (fun (s : State) (k, v) =>
-      let d := s.db c.db
-      let exp := match d.store.get k with
-        | some e => e.exp
-        | none => none
-      let e : Entry := ⟨v, exp⟩
-      { dbs := s.dbs.put c.db ⟨d.store.put k e, d.vol⟩,
-        mem := s.mem + e.getMem + keyMem k }) s
-    (s, true)
+  else ((dedupLast es).foldl (setOne c.db) (s.createDb c.db), true)
 
 /-- setExpiry :252. Assigning into the inner map of an absent database panics (nil map). -/
 def setExpiry (c : Ctx) (s : State) (k : Bytes) (exp : Option Int) : Option State :=
@@ -188,6 +189,12 @@ def Prog.run {α : Type} (c : Ctx) : Prog α → State → State × Outcome α
     | some (s', r) => (k r).run c s'
   | .panic w, s => (s, .panic w)
   | .unmod w, s => (s, .unmod w)
+
+/-- lift a purely computed outcome into a program (no primitive calls) -/
+def Prog.ofOutcome {α : Type} : Outcome α → Prog α
+  | .done a => .ret a
+  | .panic w => .panic w
+  | .unmod w => .unmod w
 
 /-- handler result: RESP reply bytes, or the Go `error` text -/
 inductive Res where
